@@ -160,4 +160,34 @@ example :
     writeAmountWithSign a none content = ([34, 65, 65, 80, 76, 32, 50, 34, 51] : Bytes) ∧
       writeAmountWithSign a none ([32, 32, 97, 58, 98, 32, 32, 65, 65, 80, 76, 32, 51] : Bytes) = ([65, 65, 80, 76, 32, 50, 51] : Bytes) := by decide +kernel
 
+/-- A commodity that stood in double quotes in the source is written back in double quotes —
+    also when its symbol is empty (`1 ""`, or a lone `"` before the end of the line): nothing the
+    user typed there is deleted.  For every commodity with a real range and every source text. -/
+theorem commodityText_keeps_quotes (c : Commodity) (content : Bytes)
+    (hq : content[c.range.start.off]? = some 34) (hr : c.range.stop.off > c.range.start.off) :
+    commodityText c content = [34] ++ c.symbol ++ [34] := by
+  unfold commodityText
+  simp [hq, hr]
+
+/-- …and a bare one stays bare. -/
+theorem commodityText_bare (c : Commodity) (content : Bytes)
+    (hq : content[c.range.start.off]? ≠ some 34) : commodityText c content = c.symbol := by
+  unfold commodityText
+  simp [hq]
+
+/-- `commodityText` before the fix "formatting keeps the quotes of an empty quoted commodity":
+    only a non-empty symbol was re-quoted. -/
+def commodityTextPinned (c : Commodity) (content : Bytes) : Bytes :=
+  if !c.symbol.isEmpty && content[c.range.start.off]? == some 34 then [34] ++ c.symbol ++ [34]
+  else c.symbol
+
+/-- Pinned code: the amount `1 ""` of `  a:b  1 ""` was written back as `1` — the two quote
+    characters were deleted; the repaired code writes `1 ""`. -/
+theorem pinned_empty_quoted_commodity_counterexample :
+    let content : Bytes := [32, 32, 97, 58, 98, 32, 32, 49, 32, 34, 34]
+    let c : Commodity := ⟨[], .right, ⟨⟨1, 10, 9⟩, ⟨1, 12, 11⟩⟩⟩
+    let a : Amount := ⟨⟨1, 0⟩, [49], c, false, Rng.zero⟩
+    commodityTextPinned c content = [] ∧
+      writeAmountWithSign a none content = ([49, 32, 34, 34] : Bytes) := by decide +kernel
+
 end HL.Props.C04
